@@ -26,7 +26,14 @@ truncation results ``prefix_1``, names that look like anonymous labels
 ``anon_1`` / ``lower_1`` / ``param_1``) x statement shape (table-qualified
 labels, anonymous function / operator labels, explicit long labels, two aliases
 of one table, WHERE with one generated bind per column, explicit bindparam
-names next to generated ones, IN / expanding binds).  Oracle: the statement is
+names next to generated ones, IN / expanding binds, and ``explicit-generated-name``:
+one explicit non-unique ``bindparam(<name>)`` at every position of the sequence, its
+name drawn from the set of bind names the compiler itself generates for that very
+statement -- read off a real compile under the label_length, so truncated forms
+``prefix_N`` are included -- plus the untruncated ``<column>_1`` spellings, all other
+columns compared through generated binds (``==`` or ``IN``): the explicit parameter is
+visited before as well as after the generated one it coincides with; k = 2 quick /
+2..3 thorough).  Oracle: the statement is
 compiled and *executed on SQLite* over a table whose column i holds the
 distinct constant 100+i: every selected element is fetched from the row by its
 own column object and must give its own constant (two elements sharing a
@@ -42,6 +49,11 @@ index / constraint name is validated against ``max_identifier_length`` only, so 
 a dialect whose ``max_index_name_length`` / ``max_constraint_name_length`` is smaller
 (MySQL: 64 vs 255) an over-long name is rendered unchanged instead of raising
 IdentifierError (proposed_fixes/c21_explicit_name_checked_against_kind_limit.diff).
+Second finding on the unchanged tree (signature ``stmt: expanded-in-name-equals-explicit-bind-name``):
+the names ``<bind>_<n>`` into which an expanding IN bind is expanded at execution time
+(SQLCompiler._process_parameters_for_postcompile / _literal_execute_expanding_parameter) are not
+checked against the statement's other bind names: ``where(x == bindparam("y_1_1", 10)).where(y.in_([20, 99]))``
+silently executes ``x = 20`` (proposed_fixes/c21_expanded_in_name_clash.diff).
 Counted, not a violation: an anonymous / truncated label that happens to be spelled
 like a column the user named (``lower(x) AS lowe_1`` next to a column ``lowe_1``):
 retrieval by element still works (counter generated-label-equals-user-name).
@@ -51,6 +63,9 @@ Mutations caught (each in a private copy, VF_REPO=/tmp/wt-strings/<m>; all in sq
   * _truncate_and_render_maxlen_name: md5 suffix ``[-4:]`` -> ``[-8:]`` -> ``name-exceeds-limit``
   * _truncated_identifier: counter increment dropped -> ``two-elements-share-a-generated-label`` / shared bind names
   * _truncate_and_render_maxlen_name: md5 suffix replaced by ``hash(name)`` -> ``rendered names depend on PYTHONHASHSEED``
+  * visit_bindparam: conflict guard ``(existing.unique or bindparam.unique)`` -> ``existing.unique`` (seeded C21-a: an explicit
+    bindparam spelled like a generated name and visited first is silently merged with the generated one)
+    -> ``explicit-generated-name:eq:0:b_1: columns ['a', 'b']: two-bindparams-share-a-name`` / ``bind-values-reach-wrong-comparison``
 Equivalent (still bounded, correctly silent): prefix ``max_ - 8`` -> ``max_ - 7``.
 """
 import hashlib
@@ -80,7 +95,9 @@ META = dict(
     level_text="Every convention template and name length within the bound is compiled to real DDL and the emitted constraint / index name is "
     "measured; every statement within the bound is compiled and executed and each selected element / bind value is traced to its own result "
     "column / comparison. Complete for the bound: any truncation, counter or uniqueness defect that needs <=3 tokens, these lengths, <=5 columns "
-    "of this universe is found.",
+    "of this universe is found. Explicit bind names are drawn from the names the compiler generates for the same statement (truncated forms "
+    "included) and placed at every position, so a clash between an explicit and a generated bind name is covered in both visiting orders: "
+    "the statement is either refused (CompileError) or every value reaches its own comparison on SQLite.",
     level_note="Trusted: the DDL name extraction via vf.models.sqllex_ref and the 'column i holds constant 100+i' world. Hash-seed independence "
     "is checked by one child interpreter per dialect with PYTHONHASHSEED=4242 over the whole DDL family.",
     rule="case = (part, dialect, limit, convention / names) ; non-trivial = a name had to be truncated (DDL: rendered name differs from the "
@@ -91,8 +108,8 @@ META = dict(
         "identifier limits are >= 8 characters (smallest real backend limit is 30; the truncation format needs 8)",
     ],
     bounds=dict(
-        quick="templates <=2 tokens x 5 kinds x 6 lengths x (3 limits on default and mysql, limit 30 on postgresql / oracle / mssql); column sequences k<=3 (k<=4 for label_length=10) over a 12-name universe x 3 label_length x 8 shapes",
-        thorough="templates <=3 tokens x 5 kinds x 6 lengths x 3 limits x 5 dialect classes; column sequences k<=5 over a 14-name universe x 3 label_length x 8 shapes",
+        quick="templates <=2 tokens x 5 kinds x 6 lengths x (3 limits on default and mysql, limit 30 on postgresql / oracle / mssql); column sequences k<=3 (k<=4 for label_length=10) over a 12-name universe x 3 label_length x 8 shapes; explicit-generated-name: k=2 x every position x every generated / '<col>_1' name x {==, IN} x 3 label_length",
+        thorough="templates <=3 tokens x 5 kinds x 6 lengths x 3 limits x 5 dialect classes; column sequences k<=5 over a 14-name universe x 3 label_length x 8 shapes; explicit-generated-name: k<=3 x every position x every generated / '<col>_1' name x {==, IN} x 3 label_length",
     ),
 )
 
@@ -376,7 +393,7 @@ def universe(L_eff, tier):
     return seen
 
 
-SHAPES = ["tablename-labels", "anon-functions", "explicit-labels", "two-aliases", "where-binds", "explicit-bind-names", "in-expanding", "mixed"]
+SHAPES = ["tablename-labels", "anon-functions", "explicit-labels", "two-aliases", "where-binds", "explicit-bind-names", "in-expanding", "mixed", "explicit-generated-name"]
 LABEL_LENGTHS = [6, 10, None]
 MAX_IDENT_FOR_NONE = 12
 _SWORLD = {}
@@ -445,6 +462,21 @@ def build_stmt(shape, names, tname):
         for n in names:
             st = st.where(t.c[n].in_([exp[n], 9999]))
             binds.append(exp[n])
+    elif shape.startswith(GEN_SHAPE + ":"):
+        # one explicit, non-unique bindparam() at position `pos`, spelled like a name the compiler itself generates for
+        # this statement; every other column gets a generated (anonymous, unique) bind: `pos` runs over every position, so
+        # the explicit parameter is visited before as well as after the generated one it coincides with
+        _, op, pos, bname = shape.split(":")
+        elems = [(t.c.pk, 1)]
+        st = sa.select(t.c.pk)
+        for i, n in enumerate(names):
+            if i == int(pos):
+                st = st.where(t.c[n] == sa.bindparam(bname, exp[n]))
+            elif op == "in":
+                st = st.where(t.c[n].in_([exp[n], 9999]))
+            else:
+                st = st.where(t.c[n] == exp[n])
+            binds.append(exp[n])
     elif shape == "mixed":
         elems = [(t.c[n], exp[n]) for n in names] + [(sa.func.abs(t.c[n]), exp[n]) for n in names[:2]]
         st = sa.select(*[e for e, _ in elems]).set_label_style(sa.LABEL_STYLE_TABLENAME_PLUS_COL)
@@ -454,6 +486,43 @@ def build_stmt(shape, names, tname):
     else:
         raise AssertionError(shape)
     return m, t, st, elems, exp, binds
+
+
+GEN_SHAPE = "explicit-generated-name"
+GEN_OPS = ["eq", "in"]
+
+
+def generated_bind_names(label_length, names, op):
+    """the bind names the compiler itself generates (and truncates under label_length) for the statement in which every
+    column of `names` is compared through an anonymous bind; read off the real compile, in visiting order"""
+    st = build_stmt("in-expanding" if op == "in" else "where-binds", names, "t")[2]
+    return list(st.compile(s_engine(label_length)).bind_names.values())
+
+
+def gen_variants(label_length, names):
+    """concrete shapes '<GEN_SHAPE>:<op>:<pos>:<explicit name>': explicit names drawn from the generated names of this very
+    statement (truncated forms included, since they are read off a compile under label_length) plus the untruncated
+    '<column>_1' spellings, at every position"""
+    for op in GEN_OPS:
+        pool = []
+        for nm in generated_bind_names(label_length, names, op) + [n + "_1" for n in names]:
+            if nm not in pool:
+                pool.append(nm)
+        for pos in range(len(names)):
+            for nm in pool:
+                yield "%s:%s:%d:%s" % (GEN_SHAPE, op, pos, nm)
+
+
+EXPANDED_CLASH = "expanded-in-name-equals-explicit-bind-name"
+
+
+def _stmt_sig(ll, shape, names, fk):
+    if fk == EXPANDED_CLASH:
+        return "stmt: %s" % fk
+    return "stmt label_length=%s %s: columns %r: %s" % (ll, shape, list(names), fk)
+
+
+_BIND_REFUSALS = ("conflicts with unique bind parameter of the same name", "Can't reuse bound parameter name")
 
 
 def check_stmt(label_length, shape, names, tname="t"):
@@ -469,8 +538,11 @@ def check_stmt(label_length, shape, names, tname="t"):
         _, _, st2, _, _, _ = build_stmt(shape, names, tname)
         s2 = str(st2.compile(e))
     except sa_exc.CompileError as ex:
-        if shape == "explicit-bind-names" and "conflicts with unique bind parameter of the same name" in str(ex):
+        if shape == "explicit-bind-names" and _BIND_REFUSALS[0] in str(ex):
             # the compiler noticed that an explicit name equals a generated one and refused: nothing is shared
+            return [], True
+        if shape.startswith(GEN_SHAPE + ":") and any(x in str(ex) for x in _BIND_REFUSALS):
+            # same: refused (either "conflicts with unique ..." or, next to an IN bind, "Can't reuse ... expanding")
             return [], True
         return [("compile-raises", "%s" % str(ex)[:150])], False
     if s1 != s2:
@@ -523,12 +595,24 @@ def check_stmt(label_length, shape, names, tname="t"):
                     if str(got) != str(val):
                         out.append(("element-reads-other-column", "element %s gives %r, its column holds %r; keys %r" % (el, got, val, keys)))
                         break
-        except (sa_exc.DBAPIError, sa_exc.InvalidRequestError, sa_exc.ArgumentError) as ex:
+        except (sa_exc.CompileError, sa_exc.StatementError, sa_exc.InvalidRequestError, sa_exc.ArgumentError) as ex:
+            orig = getattr(ex, "orig", None) if isinstance(ex, sa_exc.StatementError) and not isinstance(ex, sa_exc.DBAPIError) else ex
+            if shape.startswith(GEN_SHAPE + ":") and isinstance(orig, sa_exc.CompileError) and "conflicts with" in str(orig):
+                # post-compile (expanding IN) stage refused the statement because of a bind name clash: nothing is shared
+                nontrivial = True
+                return [], True
             out.append(("execute-raises", "%s: %s" % (type(ex).__name__, str(ex).split("\n")[0][:150])))
         finally:
             conn.rollback()
             m.drop_all(conn)
             conn.commit()
+    if shape.startswith(GEN_SHAPE + ":in:") and any(k == "bind-values-reach-wrong-comparison" for k, _ in out):
+        # one root cause whatever the columns / label_length: the names "<bind>_<n>" that an expanding (IN) bind is expanded into
+        # at execution time are not checked against the other bind names of the statement
+        bname = shape.split(":")[3]
+        expanded = {"%s_%d" % (g, i + 1) for b, g in c1.bind_names.items() if b.expanding for i in range(len(b.value))}
+        if bname in expanded:
+            out = [(EXPANDED_CLASH, "columns %r label_length=%s explicit bindparam(%r): %s" % (list(names), label_length, bname, d)) if k == "bind-values-reach-wrong-comparison" else (k, d) for k, d in out]
     return out, nontrivial
 
 
@@ -638,6 +722,9 @@ def run_shard(shard, tier, rec):
         lim = s_limit(ll)
         uni = universe(lim, tier)
         kmax = (4 if ll == 10 else 3) if tier == "quick" else 5
+        if shape == GEN_SHAPE:
+            # every case carries (positions x explicit names x 2 operators) variants: one column less than the other shapes
+            kmax = 2 if tier == "quick" else 3
         n = 0
         for k in range(2, kmax + 1):
             for names in itertools.permutations(uni, k):
@@ -646,24 +733,29 @@ def run_shard(shard, tier, rec):
                     continue
                 if len({x.lower() for x in names}) != len(names):
                     continue
-                res, nt = check_stmt(ll, shape, names)
-                for kk, _ in res:
-                    if kk.startswith("~"):
-                        rec.count(kk[1:])
-                res = [x for x in res if not x[0].startswith("~")]
-                n += 1
-                rec.case(("stmt", ll, shape, names), nontrivial=nt)
-                rec.outcome(("stmt", ll, shape, tuple(kk for kk, _ in res), nt))
-                if nt and n % 997 == 5:
-                    try:
-                        sql = str(build_stmt(shape, names, "t")[2].compile(s_engine(ll)))[:300]
-                    except sa_exc.CompileError as ex:
-                        sql = "CompileError: %s" % str(ex)[:120]
-                    rec.sample(dict(part="stmt", label_length=ll, shape=shape, columns=list(names), sql=sql))
-                for fk, detail in res:
-                    mn = _minimise_names(ll, shape, names, fk)
-                    r2 = [d for kk, d in check_stmt(ll, shape, mn)[0] if kk == fk]
-                    rec.violation("stmt label_length=%s %s: columns %r: %s" % (ll, shape, list(mn), fk), (r2[0] if r2 else detail), dict(part="stmt", label_length=ll, shape=shape, names=list(mn)))
+                for cshape in gen_variants(ll, names) if shape == GEN_SHAPE else [shape]:
+                    res, nt = check_stmt(ll, cshape, names)
+                    for kk, _ in res:
+                        if kk.startswith("~"):
+                            rec.count(kk[1:])
+                    res = [x for x in res if not x[0].startswith("~")]
+                    n += 1
+                    rec.case(("stmt", ll, cshape, names), nontrivial=nt)
+                    rec.outcome(("stmt", ll, shape, tuple(kk for kk, _ in res), nt))
+                    if nt and n % 997 == 5:
+                        try:
+                            sql = str(build_stmt(cshape, names, "t")[2].compile(s_engine(ll)))[:300]
+                        except sa_exc.CompileError as ex:
+                            sql = "CompileError: %s" % str(ex)[:120]
+                        rec.sample(dict(part="stmt", label_length=ll, shape=cshape, columns=list(names), sql=sql))
+                    for fk, detail in res:
+                        if shape == GEN_SHAPE:
+                            # enumerated simplest-first (k, then position, then name): the first failure per class is minimal
+                            rec.violation(_stmt_sig(ll, cshape, names, fk), detail, dict(part="stmt", label_length=ll, shape=cshape, names=list(names)), kind="%s %s" % (cshape.split(":")[1], fk))
+                            continue
+                        mn = _minimise_names(ll, shape, names, fk)
+                        r2 = [d for kk, d in check_stmt(ll, shape, mn)[0] if kk == fk]
+                        rec.violation("stmt label_length=%s %s: columns %r: %s" % (ll, shape, list(mn), fk), (r2[0] if r2 else detail), dict(part="stmt", label_length=ll, shape=shape, names=list(mn)))
         return
     raise AssertionError(shard)
 
@@ -699,7 +791,7 @@ def replay(case):
     if case["part"] == "stmt":
         res, _ = check_stmt(case["label_length"], case["shape"], tuple(case["names"]))
         res = [x for x in res if not x[0].startswith("~")]
-        return [("stmt label_length=%s %s: columns %r: %s" % (case["label_length"], case["shape"], case["names"], k), d) for k, d in res]
+        return [(_stmt_sig(case["label_length"], case["shape"], case["names"], k), d) for k, d in res]
     if case["part"] == "hashseed":
         rec = _MiniRec()
         run_shard(("hashseed", case["dialect"]), case.get("tier", "quick"), rec)
